@@ -246,8 +246,17 @@ def main():
     r = run([B + "/drive", tier, seed, B + "/drive.json"], env=env)
     drive_s = round(time.time() - t1, 2)
     if r.returncode != 0:
-        fail("build", "C19/build/driver-run", "the driver crashed (sanitizer report or abort)",
-             {"status": r.returncode, "output": r.stdout[-4000:]})
+        san = re.search(r"ERROR: AddressSanitizer: ([\w-]+)", r.stdout)
+        in_conv = re.search(r"reproc::(arguments|env)::from|reproc::detail::array::", r.stdout)
+        if san and in_conv:
+            # a memory error inside the container -> array conversion of the wrapper: a certain violation
+            fail("monitor", "C19/array-conversion",
+                 "AddressSanitizer: %s inside the wrapper's container conversion" % san.group(1),
+                 {"rerun": "REPO=%s harness/ties/C19.sh %s %s out.json" % (REPO, tier, seed),
+                  "report": r.stdout[r.stdout.index("ERROR: AddressSanitizer"):][:4000]})
+        else:
+            fail("build", "C19/build/driver-run", "the driver crashed (sanitizer report or abort)",
+                 {"status": r.returncode, "output": r.stdout[-4000:]})
         finish()
     drive = json.load(open(B + "/drive.json"))
 
